@@ -120,10 +120,15 @@ func (p *parser) advance() bool {
 					break
 				}
 			}
+			// the CR of a CRLF line ending is not part of the comment text
+			end := p.position
+			if end > start && p.input[end-1] == '\r' {
+				end--
+			}
 			if p.lastComment.Len() > 0 {
 				p.lastComment.WriteByte('\n')
 			}
-			p.lastComment.WriteString(p.input[start:p.position])
+			p.lastComment.WriteString(p.input[start:end])
 			// consume the terminating newline, if any
 			if p.next() < 0 {
 				p.backup()
